@@ -899,8 +899,8 @@ Proof.
     rewrite (converges _ Hr Hq0 k). apply oval_eqb_refl.
 Qed.
 
-Lemma model_meets_spec : forall ops,
-  ok_case {| c_ops := ops; c_outs := run_obs init ops |} = true.
+Lemma model_meets_spec : forall ops cbs evs,
+  ok_case {| c_ops := ops; c_outs := run_obs init ops; c_cbs := cbs; c_events := evs |} = true.
 Proof. intros. unfold ok_case. cbn [c_ops c_outs]. exact (ok_run_model _ ops []). Qed.
 
 (* ------------------------------------------------------------------ the hypotheses are satisfiable *)
